@@ -3,7 +3,7 @@ from __future__ import print_function
 import re
 import sys
 from bisect import insort
-from ast import iter_fields, Store, Load, NodeVisitor, parse, Tuple, List, AST
+from ast import iter_fields, Store, Load, NodeVisitor, parse, Tuple, List, AST, walk
 
 try:
     from ast import Starred
@@ -360,6 +360,24 @@ def split_lines(source):
     return lines
 
 
+def character_columns(tree, lines):
+    # type: (AST, list[str]) -> None
+    """The parser counts columns in UTF-8 bytes, everything else here (cursor
+    positions, marks, text searches) counts characters"""
+    def chars(lineno, col):
+        # type: (int, int) -> int
+        line = lines[lineno - 1] if 0 < lineno <= len(lines) else ''
+        if col <= 0 or all(ord(c) < 128 for c in line):
+            return col
+        return len(line.encode('utf-8')[:col].decode('utf-8', 'ignore'))
+
+    for node in walk(tree):
+        if getattr(node, 'col_offset', None) is not None:
+            node.col_offset = chars(node.lineno, node.col_offset)  # type: ignore[attr-defined]
+        if getattr(node, 'end_col_offset', None) is not None:
+            node.end_col_offset = chars(node.end_lineno, node.end_col_offset)  # type: ignore[attr-defined]
+
+
 class Source(object):
     def __init__(self, source, filename=None, position=None):
         # type: (str, str | None, tuple[int, int] | None) -> None
@@ -385,11 +403,15 @@ class Source(object):
     def tree(self):
         # type: () -> AST
         try:
-            return parse(self.source, self.filename)
+            tree = parse(self.source, self.filename)
         except ValueError as e:
             # text CPython refuses before parsing (lone surrogates are not
             # encodable): for callers this is a source that does not parse
             raise SyntaxError(str(e))
+
+        if not all(ord(c) < 128 for c in self.source):
+            character_columns(tree, self.lines)
+        return tree
 
     @cached_property
     def lines(self):
